@@ -1373,7 +1373,11 @@ def _ih_merge(it, self, args, kw):
     a, b = self.f["state"].e, other.f["state"].e
     # merging into / from an empty map never overlaps (law IH-empty, validated)
     if not (z3.eq(a, H["EMPTY"]) or z3.eq(b, H["EMPTY"])):
-        if it.branch(_overlap_formula(H, a, b)):
+        f = _overlap_formula(H, a, b)
+        if not z3.eq(f, H["OVERLAP"](a, b)):
+            # instance of the structural laws, so that clauses written with the plain predicate see the same fact
+            it.assume(H["OVERLAP"](a, b) == f)
+        if it.branch(f):
             it.raise_(intelhex.AddressOverlapError, "Data overlapped")
     if z3.eq(a, H["EMPTY"]):
         self.f["state"] = VOpaque(b, "hexmap")
